@@ -46,10 +46,23 @@ def buffer_for(ident, rnd, pattern="random", n=1400):
             nsat, nsig = rnd.randrange(9, 15), rnd.randrange(5, 8)
         sat = set(rnd.sample(range(64), nsat)) | ({63} if rnd.random() < 0.3 else set())
         sig = set(rnd.sample(range(32), nsig)) | ({0} if rnd.random() < 0.3 else set())
+        # mostly signal IDs the constellation defines (NavIC / SBAS define very few: purely random masks label every cell 'N/A',
+        # which looks the same under both label options)
+        try:
+            defined = sorted(q - 1 for q in refdecode.tables()[-1][ident[0:3]][1] if 1 <= q <= 32)
+        except Exception:  # noqa
+            defined = []
+        if defined and rnd.random() < 0.7:
+            sig = set(rnd.sample(defined, min(len(defined), max(1, nsig)))) | (set(rnd.sample(range(32), 1)) if rnd.random() < 0.3 else set())
+        if defined and sig & set(defined) and not sat:
+            sat = {rnd.randrange(64)}
         for k in range(64):
             bits[73 + k] = "1" if k in sat else "0"
         for k in range(32):
             bits[137 + k] = "1" if k in sig else "0"
+        if defined and sig & set(defined) and sat:  # at least the cell (first satellite, first defined signal) is present
+            first_defined = sorted(sig).index(min(sig & set(defined)))
+            bits[169 + first_defined] = "1"
         s = "".join(bits)
         buf = bytearray(int(s[i:i + 8], 2) for i in range(0, len(s), 8))
     return bytes(buf)
